@@ -146,6 +146,18 @@ def judge_all(prop, vd, cases, backends, *, allow_raise=("polars", "polars_lazy"
     differential=(a, b): a divergence of a or b counts only if the two final results differ."""
     stats = stats if stats is not None else collections.Counter()
     fnd = vd.findings
+    # spec self-check: single-operator behaviours against hand-written native SQL on SQLite (oracle guard, exit 2 on disagreement)
+    from . import oracle_sql
+    import sqlite3
+    con = sqlite3.connect(":memory:")
+    for case in cases:
+        if len(case["prog"]) <= 2:
+            bad = oracle_sql.check(case, con)
+            if oracle_sql.render(case) is not None and all(h["ok"] for h in case["hist"]):
+                stats["oracle_selfcheck_native_sql"] += 1
+            if bad:
+                raise common.MachineryError("spec self-check failed: " + bad)
+    con.close()
     for case, out in relreplay.replay(cases, backends, opts=opts, fn=fn):
         stats["cases"] += 1
         if "crash" in out:
